@@ -105,6 +105,9 @@ type VC struct {
 	frameFacts []*FrameFact
 	qfacts    []*QFact
 	witnesses []*Witness
+	skolemFns []*SkolemFn
+	atCalleeEnsures string // set while the ensures clauses of a callee are assumed at a call site
+	refTerms  map[string]bool // skolem constants / witnesses that stand for typed references
 	deltas    []Term
 	sortDecls *persistDecls
 }
